@@ -433,3 +433,81 @@ def add_destroy(reg):
     s = DestroyMetaGroup()
     reg.add(s)
     return [s]
+
+
+# ---- going up: MetadorNode.parent / .file (C15) -------------------------------------------------------------------
+
+
+class RawWithParent(RawObj):
+    def py_getattr(self, cx, name):
+        if name == "parent":
+            return RawResult("parent", ())
+        return RawObj.py_getattr(self, cx, name)
+
+
+class NewWrapper(SVal):
+    def __init__(self, cls, container, raw, kw):
+        self.cls, self.container, self.raw, self.kw = cls, container, raw, kw
+
+
+class ParentProp(FnSpec):
+    file = "container/wrappers.py"
+    qual = "MetadorNode.parent"
+    props = ("C15",)
+
+    def init(self):
+        self.bindings["NodeAcl"] = NodeAclEnum()
+        self.bindings["MetadorGroup"] = lambda cx, cont, raw, **kw: NewWrapper("MetadorGroup", cont, raw, kw)
+        self.inline.add("MetadorNode.acl")
+
+    def setup(self, cx):
+        o = node_obj(cx)
+        o.fields["__wrapped__"] = RawWithParent("self_raw")
+        a = A(self=o)
+        a.has_lp = cx.choose(2) == 1
+        if not a.has_lp:
+            o.fields["_self_local_parent"] = None
+        a.lp = o.fields["_self_local_parent"]
+        return a
+
+    def raises(self, cx, a):
+        return {"UnsupportedOperationError": z3.And(flag(a.self, "local_only"), z3.BoolVal(not a.has_lp))}
+
+    def ensures(self, cx, a, res):
+        o = a.self
+        lo = flag(o, "local_only")
+        out = [("local-only-yields-only-the-marked-parent", z3.Implies(lo, z3.BoolVal(a.has_lp and res is a.lp)), "a local_only node hands out, as its parent, only the marked local parent (an existing wrapper with its own restrictions) — never a wrapper built from the raw parent, so nothing above the start node is reachable")]
+        built = isinstance(res, NewWrapper)
+        out.append(("otherwise-a-wrapper-of-the-raw-parent", z3.Implies(z3.Not(lo), z3.BoolVal(built and res.container is o.fields["_self_container"] and isinstance(res.raw, RawResult) and res.raw.meth == "parent")), "an unrestricted-upwards node gets a new wrapper of its raw parent"))
+        if built:
+            for f in FLAGS:
+                v = res.kw.get(f, False)
+                vt = v.t if isinstance(v, SBool) else z3.BoolVal(v is True)
+                out.append((f"parent-inherits:{f}", z3.Implies(flag(o, f), vt), "the parent wrapper carries at least this node's restrictions"))
+        return out
+
+
+class FileProp(FnSpec):
+    file = "container/wrappers.py"
+    qual = "MetadorNode.file"
+    props = ("C15",)
+
+    def init(self):
+        self.bindings["NodeAcl"] = NodeAclEnum()
+        self.inline.add("MetadorNode.acl")
+
+    def setup(self, cx):
+        return A(self=node_obj(cx))
+
+    def raises(self, cx, a):
+        return {"UnsupportedOperationError": flag(a.self, "local_only")}
+
+    def ensures(self, cx, a, res):
+        return [("container-only-for-non-local-nodes", z3.Not(flag(a.self, "local_only")), "a local_only node never hands out the container")]
+
+
+def add_upwards(reg):
+    specs = [ParentProp(), FileProp()]
+    for s in specs:
+        reg.add(s)
+    return specs
